@@ -222,7 +222,7 @@ func (rn *runner) oneCase() {
 				op = gi.Op{Kind: "asub", Key: "other-" + fmt.Sprint(i), Subnet: firstSubnet(v), Node: "n9", Plan: gi.NoPlan()}
 			}
 		case x < 8:
-			op = gi.Op{Kind: "admres", IP: anyFree(e, v), Key: "pool__reserved-for-node_", Plan: gi.NoPlan()}
+			op = gi.Op{Kind: "admres", IP: anyFree(e, v), Key: []string{"pool__reserved-for-node_", "", "dp_ns1_req_req-0"}[e.Rng.Intn(3)], Plan: gi.NoPlan()}
 			if v.HasPending(op.IP) {
 				op = gi.Op{Kind: "deliver", Plan: gi.NoPlan()}
 			}
